@@ -116,6 +116,20 @@ CHECKS = {
         "deterministic simulation: generated drive programs executed by the real solver, per-step differential oracle against an interpreter",
         "DESIGN.md 4/C16", 600, 7200,
     ),
+    "C04": (
+        "exploration",
+        "Run-level part only, by differential simulation: each seeded Engine-A scenario (with/without terminals and bias, static and time-dependent fields, screening, adaptivity, thermalisation, injected refusals) is executed twice, the second time with A -> A + grad chi and psi_init -> psi_init e^{i chi} (chi linear = uniform shift of A, or quadratic, for which the midpoint rule makes the discrete transform exact), faults identical; every update of both runs is compared: |psi|, supercurrent, normal current, mu up to a constant, induced potential, dt, and psi after removing the gauge phase and one global phase (1e-8 at the first update, allowing rounding differences to grow 4x per update, capped at 1e-3).",
+        "Operator-level covariance for arbitrary site functions chi is an input-space statement and not claimed. Non-zero terminal_psi is excluded (a pinned value is not gauge covariant); time steps beyond the explicit-Euler stability bound are discarded; twins that part ways at a refusal / convergence threshold decided by rounding are truncated there.",
+        "deterministic simulation: differential twin runs related by the symmetry, identical seeds and fault plans",
+        "DESIGN.md 4/C04", 900, 7200,
+    ),
+    "C08": (
+        "exploration",
+        "Run-level part: (a) twin runs of one physical scenario stated in two unit systems from {um,nm,mm}x{mT,uT,T}x{uA,nA,mA} on the same dimensionless mesh object: every update's dimensionless output compared (mu up to its additive constant, psi up to a global phase; 1e-8 growing 4x per update, capped 1e-3) and Solution.current_density in A/m compared to 1e-8; (b) absolute SI oracles on every run, so a factor lost in both twins is still seen: the stored dimensionless potential of a uniform field integrates around every mesh triangle to 2 pi flux/Phi_0, the boundary flux density on every terminal equals 4 I/(K0 L), the screening kernel equals (mu_0/4pi) sum K a/r, Solution.current_density equals K0 x site-averaged dimensionless current (CODATA constants from scipy, 1e-7).",
+        "Post-processing unit conversions (C20) are not covered. Non-zero terminal_psi excluded from twins (the mu constant left to rounding by the singular Neumann solve becomes physical there).",
+        "deterministic simulation: unit system as a per-run swarm knob, differential twin runs + absolute SI reference model",
+        "DESIGN.md 4/C08", 900, 7200,
+    ),
 }
 
 
